@@ -165,7 +165,7 @@ pub enum RAct {
     WrRemove { wr: u8, inst: Inst, bundle: Vec<RTrig> },
     WrRun { wr: u8, inst: Inst },
     EwAdd { ew: u8, inst: Inst, ent: u64, data: u32 },
-    EwRemove { ew: u8, inst: Inst, ent: u64, bundle: Vec<RTrig> },
+    EwRemove { ew: u8, inst: Inst, ents: Vec<u64>, bundle: Vec<RTrig> },
     Poll,
     Gc,
     Noop,
